@@ -17,6 +17,7 @@ import Flowjaxv.Driver.Vectorize
 import Flowjaxv.Driver.TraceDrv
 import Flowjaxv.Driver.Losses
 import Flowjaxv.Driver.NetInverse
+import Flowjaxv.Driver.NetGen
 import Flowjaxv.Driver.Planar
 import Flowjaxv.Driver.BnafLd
 import Flowjaxv.Driver.BnafGen
@@ -134,6 +135,7 @@ def dispatch (line : String) : String :=
       | "gcidx" => gcidx args
       | "gcontrastive" => gcontrastive args
       | "mafbij" => mafbij args
+      | "gnet" => gnet args
       | "couplingbij" => couplingbij args
       | "bnafinv" => bnafinv args
       | "ctor" => ctor args
